@@ -34,6 +34,11 @@ CHECKS = {
         note="Same trusted base as C01; completeness of the True side rests on the impact bound 2^(n-1) (Komo & Beierle 2020), stability of the bound is a TLC-checked theorem on the 2-atom universe.",
         ref="6 C01-C05",
     ),
+    "C07": dict(
+        text="Extended semantics of p/Z/W/lex under every back-end: TLC proves on the 2-atom universe that the extended p-entailment definition equals acceptance by all ranking models with infinite ranks and that extended = strict on strongly consistent bases; every weakly consistent base of that universe is replayed (must answer, never raise) and bases over 2-4 atoms, stratified into no-finite-layer / mixed / strong, are validated by TLC.",
+        note="Same trusted base as C01.",
+        ref="6 C07",
+    ),
 }
 
 NOT_YET = {
